@@ -249,10 +249,44 @@ theorem writeAtLoop_any : ∀ (fuel : Nat) (file : Bytes) (off : Nat) (data : By
 
 /-! ### ostream.c -/
 
+/-- the state a complete `write_all(data)` leaves: the bytes land at the descriptor's position (a gap left by an
+earlier seek whose `ftruncate` failed reads as zeros) -/
+def wrRes (st : OStream) (data : Bytes) : OStream :=
+  if data.length = 0 then st
+  else { st with out := st.out ++ List.replicate st.skew 0 ++ data, size := st.size + data.length, skew := 0 }
+
+theorem wrRes_step (st : OStream) (data : Bytes) (k : Nat) (hk : k + 1 ≤ data.length) :
+    wrRes { st with out := st.out ++ List.replicate st.skew 0 ++ data.take (k + 1), skew := 0, size := st.size + (k + 1) }
+      (data.drop (k + 1)) = wrRes st data := by
+  obtain ⟨o, sz, sp, ns, sk⟩ := st
+  unfold wrRes
+  have hd : ¬ data.length = 0 := by omega
+  simp only [hd, if_false]
+  by_cases h : (data.drop (k + 1)).length = 0
+  · simp only [h, if_true]
+    have hl : data.length = k + 1 := by simp at h; omega
+    have : data.take (k + 1) = data := List.take_of_length_le (by omega)
+    rw [this, hl]
+  · have hl : (data.drop (k + 1)).length = data.length - (k + 1) := by simp
+    have hsz : sz + (k + 1) + (data.length - (k + 1)) = sz + data.length := by omega
+    have hne : ¬ (data.length - (k + 1) = 0) := by omega
+    simp only [List.replicate_zero, List.append_nil, List.append_assoc, List.take_append_drop, hl, hsz, hne, if_false]
+
+theorem wrRes_skew0 (st : OStream) (data : Bytes) (h : st.skew = 0) :
+    wrRes st data = { st with out := st.out ++ data, size := st.size + data.length } := by
+  obtain ⟨o, sz, sp, ns, sk⟩ := st
+  simp only at h
+  subst h
+  unfold wrRes
+  by_cases hd : data.length = 0
+  · have : data = [] := List.eq_nil_of_length_eq_zero hd
+    subst this
+    simp
+  · simp [hd]
+
 theorem writeAllLoop_spec : ∀ (fuel : Nat) (st : OStream) (data : Bytes) (os : OS),
     noHard os.sc = true → os.sc.length + data.length < fuel →
-    ∃ os', writeAllLoop fuel st data os =
-        (.ok, { st with out := st.out ++ data, size := st.size + data.length }, os') ∧ noHard os'.sc = true := by
+    ∃ os', writeAllLoop fuel st data os = (.ok, wrRes st data, os') ∧ noHard os'.sc = true := by
   intro fuel
   induction fuel with
   | zero => intro st data os _ h; omega
@@ -260,9 +294,7 @@ theorem writeAllLoop_spec : ∀ (fuel : Nat) (st : OStream) (data : Bytes) (os :
     intro st data os hn hf
     unfold writeAllLoop
     by_cases hs : data.length = 0
-    · have : data = [] := List.eq_nil_of_length_eq_zero hs
-      subst this
-      exact ⟨os, by simp, hn⟩
+    · exact ⟨os, by simp [hs, wrRes], hn⟩
     · simp only [hs, if_false]
       rcases call_noHard os ⟨1, data.length, st.out.length⟩ data.length hn with
         ⟨os', hc, hn', hl⟩ | ⟨m, os', hc, hn', hl, hm, hpos⟩
@@ -272,20 +304,17 @@ theorem writeAllLoop_spec : ∀ (fuel : Nat) (st : OStream) (data : Bytes) (os :
         | zero => omega
         | succ k =>
           simp only []
-          obtain ⟨os'', h', hn''⟩ := ih { st with out := st.out ++ data.take (k + 1), size := st.size + (k + 1) }
-            (data.drop (k+1)) os' hn' (by simp; omega)
-          refine ⟨os'', ?_, hn''⟩
-          rw [h']
-          simp only [List.append_assoc, List.take_append_drop, List.length_drop]
-          congr 3
-          omega
+          obtain ⟨os'', h', hn''⟩ := ih { st with out := st.out ++ List.replicate st.skew 0 ++ data.take (k + 1), skew := 0, size := st.size + (k + 1) } (data.drop (k+1)) os' hn' (by simp; omega)
+          exact ⟨os'', by rw [h', wrRes_step st data k hm], hn''⟩
 
+/-- every script: the loop ends within its fuel, never touches the pending hole, and success means that exactly
+the state of a complete write was reached -/
 theorem writeAllLoop_any : ∀ (fuel : Nat) (st : OStream) (data : Bytes) (os : OS),
     os.sc.length + data.length < fuel →
     (writeAllLoop fuel st data os).1 ≠ .fuel ∧
     (writeAllLoop fuel st data os).2.1.sparse = st.sparse ∧
     (writeAllLoop fuel st data os).2.1.noSparse = st.noSparse ∧
-    ((writeAllLoop fuel st data os).1 = .ok → (writeAllLoop fuel st data os).2.1.out = st.out ++ data) := by
+    ((writeAllLoop fuel st data os).1 = .ok → (writeAllLoop fuel st data os).2.1 = wrRes st data) := by
   intro fuel
   induction fuel with
   | zero => intro st data os h; omega
@@ -293,9 +322,7 @@ theorem writeAllLoop_any : ∀ (fuel : Nat) (st : OStream) (data : Bytes) (os : 
     intro st data os hf
     unfold writeAllLoop
     by_cases hs : data.length = 0
-    · have : data = [] := List.eq_nil_of_length_eq_zero hs
-      subst this
-      simp
+    · simp [hs, wrRes]
     · simp only [hs, if_false]
       obtain ⟨r, os', hc, hl, hi, hm⟩ := call_any os ⟨1, data.length, st.out.length⟩ data.length
       rw [hc]
@@ -311,36 +338,54 @@ theorem writeAllLoop_any : ∀ (fuel : Nat) (st : OStream) (data : Bytes) (os : 
         | zero => simp
         | succ k =>
           simp only []
-          obtain ⟨h1, h2, h3, h4⟩ := ih { st with out := st.out ++ data.take (k + 1), size := st.size + (k + 1) }
-            (data.drop (k+1)) os' (by simp; omega)
+          obtain ⟨h1, h2, h3, h4⟩ := ih { st with out := st.out ++ List.replicate st.skew 0 ++ data.take (k + 1), skew := 0, size := st.size + (k + 1) } (data.drop (k+1)) os' (by simp; omega)
           refine ⟨h1, h2, h3, fun hok => ?_⟩
-          rw [h4 hok]
-          simp
+          rw [h4 hok, wrRes_step st data k hm']
 
 theorem writeAll_spec (st : OStream) (data : Bytes) (os : OS) (hn : noHard os.sc = true) :
-    ∃ os', writeAll st data os =
-        (.ok, { st with out := st.out ++ data, size := st.size + data.length }, os') ∧ noHard os'.sc = true :=
+    ∃ os', writeAll st data os = (.ok, wrRes st data, os') ∧ noHard os'.sc = true :=
   writeAllLoop_spec _ st data os hn (by omega)
 
 theorem writeAll_any (st : OStream) (data : Bytes) (os : OS) :
     (writeAll st data os).1 ≠ .fuel ∧
     (writeAll st data os).2.1.sparse = st.sparse ∧
     (writeAll st data os).2.1.noSparse = st.noSparse ∧
-    ((writeAll st data os).1 = .ok → (writeAll st data os).2.1.out = st.out ++ data) :=
+    ((writeAll st data os).1 = .ok → (writeAll st data os).2.1 = wrRes st data) :=
   writeAllLoop_any _ st data os (by omega)
 
-/-- what the client has appended so far: the bytes in the file plus the pending hole -/
-def logical (st : OStream) : Bytes := st.out ++ List.replicate st.sparse 0
+/-- what the client has appended so far: the bytes in the file, then zeros up to the descriptor's position
+(`skew`, 0 unless an `ftruncate` failed), then the pending hole -/
+def logical (st : OStream) : Bytes := st.out ++ List.replicate (st.skew + st.sparse) 0
 
 theorem replicate_split (a b : Nat) (h : b ≤ a) :
     (List.replicate b 0 : Bytes) ++ List.replicate (a - b) 0 = List.replicate a 0 := by
   rw [List.replicate_append_replicate]; congr 1; omega
 
+/-- the state the `NO_SPARSE` loop of `realize_sparse` leaves when nothing fails -/
+def spRes (st : OStream) : OStream :=
+  if st.sparse = 0 then st
+  else { st with out := st.out ++ List.replicate st.skew 0 ++ List.replicate st.sparse 0,
+                 size := st.size + st.sparse, sparse := 0, skew := 0 }
+
+theorem spRes_step (st : OStream) (diff : Nat) (h0 : 0 < diff) (hd : diff ≤ st.sparse) :
+    spRes { wrRes st (List.replicate diff 0) with sparse := (wrRes st (List.replicate diff 0)).sparse - diff } =
+      spRes st := by
+  obtain ⟨o, sz, sp, ns, sk⟩ := st
+  simp only at hd
+  have h1 : ¬ diff = 0 := by omega
+  have h2 : ¬ sp = 0 := by omega
+  simp only [wrRes, spRes, List.length_replicate, h1, h2, if_false]
+  by_cases h3 : sp - diff = 0
+  · have : diff = sp := by omega
+    subst this
+    simp
+  · simp only [h3, if_false, List.replicate_zero, List.append_nil, List.append_assoc, replicate_split _ _ hd]
+    congr 1
+    omega
+
 theorem sparseLoop_spec (bufsz : Nat) (hb : 0 < bufsz) : ∀ (fuel : Nat) (st : OStream) (os : OS),
     noHard os.sc = true → st.sparse < fuel →
-    ∃ os', sparseLoop bufsz fuel st os =
-        (.ok, { st with out := st.out ++ List.replicate st.sparse 0, size := st.size + st.sparse, sparse := 0 }, os') ∧
-      noHard os'.sc = true := by
+    ∃ os', sparseLoop bufsz fuel st os = (.ok, spRes st, os') ∧ noHard os'.sc = true := by
   intro fuel
   induction fuel with
   | zero => intro st os _ h; omega
@@ -348,11 +393,7 @@ theorem sparseLoop_spec (bufsz : Nat) (hb : 0 < bufsz) : ∀ (fuel : Nat) (st : 
     intro st os hn hf
     unfold sparseLoop
     by_cases hs : st.sparse = 0
-    · refine ⟨os, ?_, hn⟩
-      obtain ⟨o, sz, sp, ns⟩ := st
-      simp only at hs
-      subst hs
-      simp
+    · exact ⟨os, by simp [hs, spRes], hn⟩
     · simp only [hs, if_false]
       generalize hd : (if st.sparse > bufsz then bufsz else st.sparse) = diff
       have hd1 : 0 < diff ∧ diff ≤ st.sparse := by
@@ -360,22 +401,16 @@ theorem sparseLoop_spec (bufsz : Nat) (hb : 0 < bufsz) : ∀ (fuel : Nat) (st : 
       obtain ⟨os', hw, hn'⟩ := writeAll_spec st (List.replicate diff 0) os hn
       rw [hw]
       simp only []
-      obtain ⟨os'', h', hn''⟩ := ih ⟨st.out ++ List.replicate diff 0,
-          st.size + (List.replicate diff (0 : UInt8)).length, st.sparse - diff, st.noSparse⟩ os' hn'
-        (by simp; omega)
-      refine ⟨os'', ?_, hn''⟩
-      rw [h']
-      simp only [List.append_assoc, List.length_replicate, replicate_split _ _ hd1.2]
-      congr 3
-      omega
+      have hsp : (wrRes st (List.replicate diff 0)).sparse = st.sparse := by
+        unfold wrRes; split <;> rfl
+      obtain ⟨os'', h', hn''⟩ := ih { wrRes st (List.replicate diff 0) with sparse := (wrRes st (List.replicate diff 0)).sparse - diff } os' hn' (by simp only [hsp]; omega)
+      exact ⟨os'', by rw [h', spRes_step st diff hd1.1 hd1.2], hn''⟩
 
 theorem sparseLoop_any (bufsz : Nat) (hb : 0 < bufsz) : ∀ (fuel : Nat) (st : OStream) (os : OS),
     st.sparse < fuel →
     (sparseLoop bufsz fuel st os).1 ≠ .fuel ∧
     (sparseLoop bufsz fuel st os).2.1.noSparse = st.noSparse ∧
-    ((sparseLoop bufsz fuel st os).1 = .ok →
-      (sparseLoop bufsz fuel st os).2.1.out = st.out ++ List.replicate st.sparse 0 ∧
-      (sparseLoop bufsz fuel st os).2.1.sparse = 0) := by
+    ((sparseLoop bufsz fuel st os).1 = .ok → (sparseLoop bufsz fuel st os).2.1 = spRes st) := by
   intro fuel
   induction fuel with
   | zero => intro st os h; omega
@@ -383,7 +418,7 @@ theorem sparseLoop_any (bufsz : Nat) (hb : 0 < bufsz) : ∀ (fuel : Nat) (st : O
     intro st os hf
     unfold sparseLoop
     by_cases hs : st.sparse = 0
-    · simp [hs]
+    · simp [hs, spRes]
     · simp only [hs, if_false]
       generalize hd : (if st.sparse > bufsz then bufsz else st.sparse) = diff
       have hd1 : 0 < diff ∧ diff ≤ st.sparse := by
@@ -395,16 +430,16 @@ theorem sparseLoop_any (bufsz : Nat) (hb : 0 < bufsz) : ∀ (fuel : Nat) (st : O
       | ok =>
         simp only []
         simp only at w2 w3 w4
+        have hst : st' = wrRes st (List.replicate diff 0) := w4 trivial
         obtain ⟨h1, h2, h3⟩ := ih { st' with sparse := st'.sparse - diff } os' (by simp; omega)
         refine ⟨h1, by rw [h2]; exact w3, fun hok => ?_⟩
-        obtain ⟨h4, h5⟩ := h3 hok
-        refine ⟨?_, h5⟩
-        rw [h4]
-        simp only [w4 trivial, w2, List.append_assoc, replicate_split _ _ hd1.2]
+        rw [h3 hok, hst, spRes_step st diff hd1.1 hd1.2]
       | io => simp_all
       | oob => simp_all
       | compressor => simp_all
+      | corrupted => simp_all
       | fuel => simp_all
+      | nullDeref => simp_all
 
 theorem ftruncLoop_spec : ∀ (fuel len : Nat) (os : OS), noHard os.sc = true → os.sc.length < fuel →
     ∃ os', ftruncLoop fuel len os = (.ok, os') ∧ noHard os'.sc = true := by
@@ -433,43 +468,57 @@ theorem ftruncLoop_any : ∀ (fuel len : Nat) (os : OS), os.sc.length < fuel →
     | err => simp
     | n m => simp
 
+/-- the state `realize_sparse` leaves when nothing fails -/
+def realizeRes (o : OStream) : OStream :=
+  if o.sparse = 0 then o
+  else if o.noSparse then spRes o
+  else { o with out := o.out ++ List.replicate (o.skew + o.sparse) 0, sparse := 0, skew := 0 }
+
+theorem realizeRes_facts (o : OStream) :
+    (realizeRes o).out ++ List.replicate (realizeRes o).skew 0 = logical o ∧ (realizeRes o).sparse = 0 ∧
+    (realizeRes o).noSparse = o.noSparse ∧ (o.skew = 0 → (realizeRes o).skew = 0 ∧ (realizeRes o).out = logical o) := by
+  obtain ⟨out, sz, sp, ns, sk⟩ := o
+  unfold realizeRes spRes logical
+  by_cases hs : sp = 0
+  · subst hs; simp
+  · cases ns <;> simp [hs, ← List.replicate_append_replicate]
+
 /-- On a script without hard events `realize_sparse` materialises the pending hole — by writing zeros or by
 `lseek`+`ftruncate`, with the same bytes in the file either way. -/
-theorem realizeSparse_spec (st : OStream) (os : OS) (hn : noHard os.sc = true) :
-    ∃ st' os', realizeSparse st os = (.ok, st', os') ∧ noHard os'.sc = true ∧
-      st'.out = logical st ∧ st'.sparse = 0 ∧ st'.noSparse = st.noSparse := by
-  unfold realizeSparse
+theorem realizeSparse_det (st : OStream) (os : OS) (hn : noHard os.sc = true) :
+    ∃ os', realizeSparse st os = (.ok, realizeRes st, os') ∧ noHard os'.sc = true := by
+  unfold realizeSparse realizeRes
   by_cases hs : st.sparse = 0
-  · exact ⟨st, os, by simp [hs], hn, by simp [logical, hs], hs, rfl⟩
+  · exact ⟨os, by simp [hs], hn⟩
   · simp only [hs, if_false]
     by_cases hf : st.noSparse = true
     · simp only [hf, if_true]
       obtain ⟨os', h, hn'⟩ := sparseLoop_spec (if st.sparse > 1024 then 1024 else st.sparse)
         (by split <;> omega) (st.sparse + 1) st os hn (by omega)
-      exact ⟨_, os', h, hn', rfl, rfl, hf⟩
+      exact ⟨os', h, hn'⟩
     · simp only [hf]
-      obtain ⟨os', h, hn'⟩ := ftruncLoop_spec (os.sc.length + 1) (st.out.length + st.sparse) os hn (by omega)
+      obtain ⟨os', h, hn'⟩ := ftruncLoop_spec (os.sc.length + 1) (st.out.length + st.skew + st.sparse) os hn (by omega)
       simp only [Bool.false_eq_true, if_false, h]
-      exact ⟨_, os', rfl, hn', rfl, rfl, rfl⟩
+      exact ⟨os', rfl, hn'⟩
 
 theorem realizeSparse_any (st : OStream) (os : OS) :
     (realizeSparse st os).1 ≠ .fuel ∧ (realizeSparse st os).2.1.noSparse = st.noSparse ∧
-    ((realizeSparse st os).1 = .ok →
-      (realizeSparse st os).2.1.out = logical st ∧ (realizeSparse st os).2.1.sparse = 0) := by
-  unfold realizeSparse
+    ((realizeSparse st os).1 = .ok → (realizeSparse st os).2.1 = realizeRes st) := by
+  unfold realizeSparse realizeRes
   by_cases hs : st.sparse = 0
-  · simp [hs, logical]
+  · simp [hs]
   · simp only [hs, if_false]
     by_cases hf : st.noSparse = true
     · simp only [hf, if_true]
       have := sparseLoop_any (if st.sparse > 1024 then 1024 else st.sparse) (by split <;> omega) (st.sparse + 1) st os
         (by omega)
-      simpa [logical, hf] using this
+      rw [hf] at this
+      exact this
     · simp only [hf]
-      have := ftruncLoop_any (os.sc.length + 1) (st.out.length + st.sparse) os (by omega)
-      generalize ftruncLoop (os.sc.length + 1) (st.out.length + st.sparse) os = r at *
+      have := ftruncLoop_any (os.sc.length + 1) (st.out.length + st.skew + st.sparse) os (by omega)
+      generalize ftruncLoop (os.sc.length + 1) (st.out.length + st.skew + st.sparse) os = r at *
       obtain ⟨e, os'⟩ := r
-      cases e <;> simp_all [logical]
+      cases e <;> simp_all
 
 /-- the bytes an operation appends -/
 def oopBytes : OOp → Bytes
@@ -479,54 +528,86 @@ def oopBytes : OOp → Bytes
 
 theorem logical_append_hole (st : OStream) (n k : Nat) :
     logical { st with sparse := st.sparse + n, size := k } = logical st ++ List.replicate n 0 := by
-  simp [logical, ← List.replicate_append_replicate]
+  simp [logical, ← List.replicate_append_replicate, Nat.add_assoc]
+
+/-- the state one client call leaves when nothing fails -/
+def stepRes (st : OStream) : OOp → OStream
+  | .hole n => { st with sparse := st.sparse + n, size := st.size + n }
+  | .flush => realizeRes st
+  | .data d => if d.length = 0 then { st with sparse := st.sparse + d.length, size := st.size + d.length }
+               else wrRes (realizeRes st) d
+
+theorem wrRes_facts (st : OStream) (d : Bytes) (hs : st.sparse = 0) :
+    logical (wrRes st d) = logical st ++ d ∧ (wrRes st d).sparse = 0 ∧ (wrRes st d).noSparse = st.noSparse ∧
+    (st.skew = 0 → (wrRes st d).skew = 0) ∧ (d.length ≠ 0 → (wrRes st d).skew = 0) := by
+  obtain ⟨out, sz, sp, ns, sk⟩ := st
+  simp only at hs
+  subst hs
+  unfold wrRes logical
+  by_cases hd : d.length = 0
+  · have : d = [] := List.eq_nil_of_length_eq_zero hd
+    subst this
+    simp
+  · simp [hd]
+
+theorem stepRes_facts (st : OStream) (op : OOp) :
+    logical (stepRes st op) = logical st ++ oopBytes op ∧ (stepRes st op).noSparse = st.noSparse ∧
+    (st.skew = 0 → (stepRes st op).skew = 0) ∧
+    (op = .flush → (stepRes st op).sparse = 0 ∧ (st.skew = 0 → (stepRes st op).out = logical st)) := by
+  obtain ⟨h1, h2, h3, h4⟩ := realizeRes_facts st
+  cases op with
+  | hole n => exact ⟨by simp [stepRes, logical_append_hole, oopBytes], rfl, fun h => h, by simp⟩
+  | flush =>
+    refine ⟨?_, h3, fun h => (h4 h).1, fun _ => ⟨h2, fun h => (h4 h).2⟩⟩
+    simp only [stepRes, oopBytes, List.append_nil]
+    simp only [logical, h2, Nat.add_zero]
+    exact h1
+  | data d =>
+    simp only [stepRes, oopBytes]
+    by_cases hd : d.length = 0
+    · have : d = [] := List.eq_nil_of_length_eq_zero hd
+      subst this
+      simp [logical]
+    · simp only [hd, if_false]
+      obtain ⟨w1, w2, w3, w4, w5⟩ := wrRes_facts (realizeRes st) d h2
+      refine ⟨?_, by rw [w3, h3], fun _ => w5 hd, by simp⟩
+      rw [w1]
+      congr 1
+      simp only [logical, h2, Nat.add_zero]
+      exact h1
+
+theorem ostreamStep_det (st : OStream) (op : OOp) (os : OS) (hn : noHard os.sc = true) :
+    ∃ os', ostreamStep st op os = (.ok, stepRes st op, os') ∧ noHard os'.sc = true := by
+  cases op with
+  | hole n => exact ⟨os, rfl, hn⟩
+  | flush => exact realizeSparse_det st os hn
+  | data d =>
+    simp only [ostreamStep, fileAppend, stepRes]
+    by_cases hd : d.length = 0
+    · exact ⟨os, by simp [hd], hn⟩
+    · simp only [hd, if_false]
+      obtain ⟨os', h, hn'⟩ := realizeSparse_det st os hn
+      rw [h]
+      exact writeAll_spec (realizeRes st) d os' hn'
 
 theorem ostreamStep_spec (st : OStream) (op : OOp) (os : OS) (hn : noHard os.sc = true) :
     ∃ st' os', ostreamStep st op os = (.ok, st', os') ∧ noHard os'.sc = true ∧
-      logical st' = logical st ++ oopBytes op ∧ st'.noSparse = st.noSparse ∧ (op = .flush → st'.sparse = 0) := by
-  cases op with
-  | hole n =>
-    refine ⟨_, os, rfl, hn, ?_, rfl, by simp⟩
-    simp [logical_append_hole, oopBytes]
-  | flush =>
-    obtain ⟨st', os', h, hn', h1, h2, h3⟩ := realizeSparse_spec st os hn
-    refine ⟨st', os', h, hn', ?_, h3, fun _ => h2⟩
-    simp [logical, h1, h2, oopBytes]
-  | data d =>
-    simp only [ostreamStep, fileAppend]
-    by_cases hd : d.length = 0
-    · have : d = [] := List.eq_nil_of_length_eq_zero hd
-      subst this
-      refine ⟨_, os, by simp, hn, ?_, rfl, by simp⟩
-      simp [logical, oopBytes]
-    · simp only [hd, if_false]
-      obtain ⟨st', os', h, hn', h1, h2, h3⟩ := realizeSparse_spec st os hn
-      rw [h]
-      simp only []
-      obtain ⟨os'', hw, hn''⟩ := writeAll_spec st' d os' hn'
-      refine ⟨_, os'', hw, hn'', ?_, h3, by simp⟩
-      simp [logical, h1, h2, oopBytes]
+      logical st' = logical st ++ oopBytes op ∧ st'.noSparse = st.noSparse ∧ (st.skew = 0 → st'.skew = 0) ∧
+      (op = .flush → st'.sparse = 0 ∧ (st.skew = 0 → st'.out = logical st)) := by
+  obtain ⟨os', h, hn'⟩ := ostreamStep_det st op os hn
+  obtain ⟨f1, f2, f3, f4⟩ := stepRes_facts st op
+  exact ⟨_, os', h, hn', f1, f2, f3, f4⟩
 
 theorem ostreamStep_any (st : OStream) (op : OOp) (os : OS) :
     (ostreamStep st op os).1 ≠ .fuel ∧ (ostreamStep st op os).2.1.noSparse = st.noSparse ∧
-    ((ostreamStep st op os).1 = .ok →
-      logical (ostreamStep st op os).2.1 = logical st ++ oopBytes op ∧
-      (op = .flush → (ostreamStep st op os).2.1.sparse = 0)) := by
+    ((ostreamStep st op os).1 = .ok → (ostreamStep st op os).2.1 = stepRes st op) := by
   cases op with
-  | hole n => simp [ostreamStep, fileAppend, logical_append_hole, oopBytes]
-  | flush =>
-    obtain ⟨h1, h2, h3⟩ := realizeSparse_any st os
-    refine ⟨h1, h2, fun hok => ?_⟩
-    obtain ⟨h4, h5⟩ := h3 hok
-    refine ⟨?_, fun _ => h5⟩
-    simp only [ostreamStep, fileFlush] at h4 h5 ⊢
-    simp [logical, h4, h5, oopBytes]
+  | hole n => simp [ostreamStep, fileAppend, stepRes]
+  | flush => exact realizeSparse_any st os
   | data d =>
-    simp only [ostreamStep, fileAppend]
+    simp only [ostreamStep, fileAppend, stepRes]
     by_cases hd : d.length = 0
-    · have : d = [] := List.eq_nil_of_length_eq_zero hd
-      subst this
-      simp [logical, oopBytes]
+    · simp [hd]
     · simp only [hd, if_false]
       obtain ⟨h1, h2, h3⟩ := realizeSparse_any st os
       generalize realizeSparse st os = r at *
@@ -534,13 +615,15 @@ theorem ostreamStep_any (st : OStream) (op : OOp) (os : OS) :
       cases e with
       | ok =>
         simp only [] at h2 h3 ⊢
-        obtain ⟨h4, h5⟩ := h3 trivial
+        have hst : st' = realizeRes st := h3 trivial
         obtain ⟨w1, w2, w3, w4⟩ := writeAll_any st' d os'
-        refine ⟨w1, by rw [w3, h2], fun hok => ⟨?_, by simp⟩⟩
-        simp [logical, w4 hok, w2, h4, h5, oopBytes]
+        refine ⟨w1, by rw [w3, h2], fun hok => ?_⟩
+        rw [w4 hok, hst]
       | io => simp_all
       | oob => simp_all
       | compressor => simp_all
+      | corrupted => simp_all
       | fuel => simp_all
+      | nullDeref => simp_all
 
 end Sqfs.IoLoops
